@@ -8,6 +8,16 @@ HOOK_COMMITS = subprocess.run(
 
 # id -> (built?, technique, level text, level note, design_ref)
 CHECKS = {
+ "C14": (True,
+   "metamorphic self-comparison on real interpreters: program vs reload of its own LIST output (listing, token counts, DATA stream, RUN transcript), exhaustive over token adjacencies",
+   "Every token spelling next to every other (pairs; triples in the thorough tier), numerals in every spelling, DATA lists of every item form, random token lines and generated programs are entered, listed, reloaded into a fresh interpreter and listed again: the listing must be accepted and identical, per-line token counts and the DATA stream seen by READ must be equal, RUN transcripts equal, and the listing of each entry must tokenize to the entry's tokens.",
+   "Lines rejected at entry are not part of a stored program.",
+   "DESIGN.md §5 C14"),
+ "C15": (True,
+   "metamorphic pairs: analyzer-loaded vs typed-in interpreter compared per turn with snapshot hooks; real abasic binary run as child processes in file mode vs interactive mode under all option combinations",
+   "In-process, files of numbered tokenizable lines (with duplicates, shuffling, token-soup lines, CR endings) are loaded through the analyzer and typed line by line; LIST and every turn of RUN must be identical including runtime snapshots. The real CLI binary is executed as a child for all 8 combinations of -w/-t/--skip-check in file mode and interactive mode; stdout and stderr must match after removing banner, prompts and static-analysis lines.",
+   "CLI = debug build with hooks off, HOME redirected, NO_COLOR=1, piped stdio; exit codes not compared; no RND in CLI programs.",
+   "DESIGN.md §5 C15"),
  "C01": (True,
    "crash/contract monitor at the API boundary (catch_unwind + post-conditions + snapshot tripwires + liveness probe), rustc overflow-checks as arithmetic sanitizer, child-process probes for native-stack exhaustion",
    "Hostile protocol-respecting session histories and a boundary-value catalogue run on a build with overflow checks and debug assertions (and on the shipped optimisation profile); every host call is wrapped, every error value must leave the interpreter idle with a renderable caret, snapshot invariants run after every call and a liveness probe ends every history. Nested constructs to depth 100000 are probed in child processes on 1/2/8 MiB stacks through the evaluator and the static analyzer, so aborts are observed as signals.",
